@@ -544,8 +544,13 @@ BIN = {
 CMP = {
     ast.Eq: operator.eq, ast.NotEq: operator.ne, ast.Lt: operator.lt, ast.LtE: operator.le,
     ast.Gt: operator.gt, ast.GtE: operator.ge, ast.In: lambda a, b: a in b,
-    ast.NotIn: lambda a, b: a not in b, ast.Is: operator.is_, ast.IsNot: operator.is_not,
+    ast.NotIn: lambda a, b: a not in b, ast.Is: lambda a, b: _same_object(a, b), ast.IsNot: lambda a, b: not _same_object(a, b),
 }
+
+
+def _same_object(a, b):
+    """`a is b` for folded values: references to a class are created afresh by every lookup but denote one runtime object"""
+    return a is b or (isinstance(a, ClassRef) and isinstance(b, ClassRef) and a == b)
 SAFE = {
     "dict": dict, "list": list, "tuple": tuple, "range": range, "enumerate": enumerate, "zip": zip,
     "reversed": reversed, "sorted": sorted, "len": len, "bytes": bytes, "int": int, "set": set,
